@@ -437,6 +437,15 @@ def _solver(ctx, hyps, goal, timeout_ms):
 
 def check_valid(ctx, hyps, goal, timeout_ms=None, use_cli=True, full=True):
     """returns (verdict, backend, seconds, model_or_reason)"""
+    t0 = time.time()
+    try:
+        return _check_valid(ctx, hyps, goal, timeout_ms, use_cli, full)
+    except z3.Z3Exception as e:
+        # an internal solver error decides nothing
+        return 'unknown', 'z3-5.1(api)', time.time() - t0, f'solver error: {e}'
+
+
+def _check_valid(ctx, hyps, goal, timeout_ms=None, use_cli=True, full=True):
     timeout_ms = timeout_ms or Z3_TIMEOUT_MS
     t0 = time.time()
     # phase 1: e-matching only (fast when provable, gives up quickly otherwise)
